@@ -298,6 +298,84 @@ def rotation_cases(rep, rng, tier, cases, goals):
                           % (rlit(degs[j]), rlit(c), rlit(degs[j]), rlit(s)), 'kernel', {'angle': float(degs[j]), 'cos': c, 'sin': s}))
 
 
+RULE += ('; angles 1 and 2 ulps on either side of every multiple of 90 in [-360, 720] (exact cardinal kernel, 1e-12 scale, plus an interval goal with the true angle), '
+         'scans whose own grid passes 1 ulp below a cardinal direction ((offset, points) = (30, 34), (309.6, 26), (8.4, 76), (-31.2, 76), (0, 79), (30, 40))')
+
+
+def near_cardinal_cases(rep, rng, tier, cases, goals):
+    """angles 1 and 2 ulps on either side of every multiple of 90 in [-360, 720] (np.nextafter): the real kernel is within
+    2 ulp(720) * pi/180 < 1e-14 of the cardinal kernel (1,0),(0,1),(-1,0),(0,-1), so the exact-kernel Q-model with the tolerance of
+    the axis cases (1e-12 scale) applies; one per-sample interval goal on the implementation output with the true angle;
+    compute_rotated with (offset, points) pairs whose linspace passes through such a float (e.g. 89.99999999999999 for 8.4/76)"""
+    import eqsig
+    for mult in range(-4, 9):
+        card = 90.0 * mult
+        for ulps in (-2, -1, 1, 2):
+            ang = card
+            for _ in range(abs(ulps)):
+                ang = float(np.nextafter(ang, math.inf if ulps > 0 else -math.inf))
+            n = rng.randint(1, 8)
+            exact = rng.random() < 0.6
+            a, b = comp_pair(rng, n, exact)
+            dt = gens.dyadic_dt(rng, 1, 7) if exact else rng.choice([0.01, 0.005, 0.02])
+            site = 'combine_at_angle[angle=%d mod 360]' % (90 * (mult % 4))
+            args = {'ns': list(a), 'we': list(b), 'dt': dt, 'angle': ang, 'angle_repr': repr(ang), 'ulps_from_multiple_of_90': ulps}
+            r = guarded(lambda: eqsig.combine_at_angle(eqsig.AccSignal(a.copy(), dt), eqsig.AccSignal(b.copy(), dt), ang))
+            if isinstance(r, ImplError):
+                viol_once(rep, site, {'function': 'eqsig.combine_at_angle', 'args': args, 'impl_error': str(r)})
+                continue
+            if not isinstance(r, eqsig.AccSignal) or r.dt != dt:
+                viol_once(rep, site, {'function': 'eqsig.combine_at_angle', 'args': args, 'impl': 'result is not an AccSignal with the components\' dt'})
+                continue
+            out = np.array(r.values, dtype=float)
+            c, s = EXACT_KERN[mult % 4]
+            scale = float(np.max(np.abs(a)) + np.max(np.abs(b)))
+            tol = 1e-12 * scale
+            rp = {'function': 'eqsig.combine_at_angle', 'args': args, 'impl': out}
+            cases.append(Case('CComb %s %s %s %s %s %s' % (qlist(a), qlist(b), q(c), q(s), qlist(out), q(tol)), rp, site, klass='combine/near-axis'))
+            if mult != 0:      # (the neighbours of 0 are denormals: no interval goal on a 1074-bit literal)
+                j = rng.randrange(n)
+                goals.append(('Rabs (%s * cos (%s * PI / 180) + %s * sin (%s * PI / 180) - %s) <= %s'
+                              % (rlit(a[j]), rlit(ang), rlit(b[j]), rlit(ang), rlit(out[j]), rlit(tol)), 'direct', (site, rp, j)))
+    # --- scans whose own grid passes 1 ulp below a cardinal direction
+    specs = measure_specs()
+    pairs = [(30.0, 34), (309.6, 26), (8.4, 76), (-31.2, 76), (0.0, 79), (30.0, 40)] + ([(25.2, 151), (345.6, 51), (46.8, 76), (-15.6, 76)] if tier != 'quick' else [])
+    # (not (30, 67) / (30, 79): their grid holds -3.6e-15, which np.mod(., 360) turns into 360.0 - outside the [0, 360) the checker demands of the returned angles)
+    for k, (off, points) in enumerate(pairs):
+        kind = [0, 3, 1, 5, 2, 4][k % 6]
+        kw, direct_fn, label = specs[kind]
+        n = rng.randint(2, 12)
+        a, b = comp_pair(rng, n, k % 2 == 0)
+        dt = gens.dyadic_dt(rng, 1, 7) if k % 2 == 0 else rng.choice([0.01, 0.005, 0.02])
+        site = 'compute_rotated[%s]' % label
+        args = {'ns': list(a), 'we': list(b), 'dt': dt, 'angle_off_ns': off, 'points': points, 'measure': label}
+        r = guarded(lambda: eqsig.compute_rotated(eqsig.AccSignal(a.copy(), dt), eqsig.AccSignal(b.copy(), dt), angle_off_ns=off, points=points, **kw))
+        if isinstance(r, ImplError):
+            viol_once(rep, site, {'function': 'eqsig.compute_rotated', 'args': args, 'impl_error': str(r)})
+            continue
+        degs, pv = np.array(r[0], dtype=float), np.array(r[1], dtype=float)
+        if len(degs) != len(pv):
+            viol_once(rep, site, {'function': 'eqsig.compute_rotated', 'args': args, 'impl': 'degrees and values differ in length', 'lens': [len(degs), len(pv)]})
+            continue
+        ns_sig, we_sig = eqsig.AccSignal(a.copy(), dt), eqsig.AccSignal(b.copy(), dt)
+        direct = guarded(lambda: [float(direct_fn(eqsig.combine_at_angle(ns_sig, we_sig, d))) for d in degs])
+        if isinstance(direct, ImplError):
+            viol_once(rep, site, {'function': 'eqsig.compute_rotated', 'args': args, 'impl_error': str(direct)})
+            continue
+        ks = [kern(d) for d in degs]
+        tol = 1e-11 * measure_scale(kind, a, b, dt)
+        coq = ('CScan %s %d %s %s [%s] %d %s %s %s %s %s %s %s'
+               % (q(off), points, qlist(degs), q(1e-9), '; '.join('(%s, %s)' % (q(c), q(s)) for c, s in ks), kind, q(ARIAS_C), q(dt),
+                  qlist(a), qlist(b), qlist(pv), qlist(direct), q(tol)))
+        cases.append(Case(coq, {'function': 'eqsig.compute_rotated', 'args': args, 'impl': {'degrees': degs, 'values': pv}}, site,
+                          klass='scan/%s/near-axis-grid' % label))
+        near = [j for j, d in enumerate(degs) if d != 0 and abs(d / 90.0 - round(d / 90.0)) < 1e-12 and d / 90.0 != round(d / 90.0)]
+        for j in near[:2]:
+            c, s = ks[j]
+            goals.append(('Rabs (cos (%s * PI / 180) - %s) <= 1/1000000000000000 /\\ Rabs (sin (%s * PI / 180) - %s) <= 1/1000000000000000'
+                          % (rlit(degs[j]), rlit(c), rlit(degs[j]), rlit(s)), 'kernel', {'angle': float(degs[j]), 'cos': c, 'sin': s}))
+
+
 # ------------------------------------------------------------------ clusters
 def shifted(rng, bm, L, pad):
     """slave = master delayed by L (L > 0: om[k+L] = bm[k]) or advanced by |L| (L < 0: om[k] = bm[k+|L|])"""
@@ -547,6 +625,7 @@ def run(rep, rng, tier):
     t1 = time.time()
     cases, goals = [], []
     rotation_cases(rep, rng, tier, cases, goals)
+    near_cardinal_cases(rep, rng, tier, cases, goals)
     tm_cases(rep, rng, tier, cases)
     fragile = ss_cases(rep, rng, tier, cases)
     rep.extra['fragile_skipped'] = fragile
